@@ -794,6 +794,19 @@ class Engine:
         if isinstance(stmt, ast.Expr):
             if isinstance(stmt.value, ast.Constant):
                 return [("normal", None, st)]
+            if isinstance(stmt.value, ast.Yield):
+                return self._run_yield(fi, stmt, st, depth)
+            if isinstance(stmt.value, ast.YieldFrom):
+                # `yield from X`  ==  `for v in X: yield v`  (no value is sent into these generators)
+                loop = getattr(stmt, "_as_loop", None)
+                if loop is None:
+                    tmp = ast.Name(id="$yield_from", ctx=ast.Store())
+                    y = ast.Expr(value=ast.Yield(value=ast.Name(id="$yield_from", ctx=ast.Load())))
+                    loop = ast.For(target=tmp, iter=stmt.value.value, body=[y], orelse=[], type_comment=None)
+                    for n in (tmp, y, y.value, y.value.value, loop):
+                        ast.copy_location(n, stmt)
+                    stmt._as_loop = loop
+                return self._run_for(fi, loop, st, depth)
 
             def act(s, ch):
                 ev(stmt.value, s, ch)
@@ -949,6 +962,10 @@ class Engine:
             if kind != "iter":
                 out.append((kind, it, s0))
                 continue
+            gen = self._generator_call(it, s0) if isinstance(stmt, ast.For) else None
+            if gen is not None:
+                out.extend(self._run_for_generator(fi, stmt, s0, depth, gen))
+                continue
             elems = self._iter_elems(it)
             K = len(elems) if elems is not None else self.policy.unroll
             site = self.site(stmt, fi)
@@ -1003,6 +1020,122 @@ class Engine:
                 frontier = nxt
                 if not frontier:
                     break
+        return out
+
+    # generators ------------------------------------------------------------------
+    def _generator_call(self, it, s: _State):
+        """`it` is the value of a call of a package generator function evaluated as the iterable of a for
+        statement -> (callee, receiver term, receiver class, args, kwargs, call event)"""
+        if it[0] != "call" or it[1][0] not in ("bound", "func"):
+            return None
+        targets, recv, rc = self._resolve_targets(it[1])
+        if not targets:
+            return None
+        callee = targets[0]
+        if recv is not None and rc is not None and callee.cls is not None and it[1][0] == "bound":
+            callee = self.prog.lookup_method(rc, callee.name) or callee
+        if not _has_yield(callee) or callee.is_async or callee.qual in self._active:
+            return None
+        ev = None
+        for e in reversed(s.events):
+            if e.kind == "call" and e.result == it:
+                ev = e
+                break
+        return (callee, recv, rc, it[2], it[3], ev)
+
+    def _run_for_generator(self, fi, stmt, s0: _State, depth, gen):
+        """for T in g(...): BODY   with g a generator function of the package: g's body is executed in place, every
+        `yield v` runs BODY with T = v (the consumer's variables and the generator's live side by side, as they
+        do at run time); the loop ends when g's body ends"""
+        callee, recv, rc, args, kwargs, ev = gen
+        if ev is not None:
+            ev.inlined = True
+        g = s0.copy()
+        cons_env = g.env
+        g.env = {}
+        g.env["$handlers"] = cons_env.get("$handlers", ())
+        g.env["$iter"] = (cons_env.get("$iter") or ()) + ((-1, stmt.lineno, stmt.col_offset),)
+        self._bind_params(callee, g, rc, recv, args, kwargs, root=False)
+        g.env["$consumer"] = (cons_env, stmt, fi, depth)
+        enter = self._event("enter", stmt.iter, fi, depth, g)
+        enter.targets = [callee]
+        self._active.append(callee.qual)
+        try:
+            outs = self._run_body(callee, callee.node.body, g, depth + 1)
+        finally:
+            self._active.pop()
+        out = []
+        for kind, val, sg in outs:
+            if kind in ("normal", "return"):
+                # generator exhausted: the loop ends normally
+                cons = sg.env.get("$consumer")
+                sg.env = dict(cons[0]) if cons is not None else dict(cons_env)
+                leave = self._event("leave", stmt.iter, fi, depth, sg)
+                leave.targets = [callee]
+                if stmt.orelse:
+                    out.extend(self._run_body(fi, stmt.orelse, sg, depth))
+                else:
+                    out.append(("normal", None, sg))
+            elif kind == "genexit":
+                k2, v2 = val
+                if k2 == "break":
+                    out.append(("normal", None, sg))
+                else:
+                    out.append((k2, v2, sg))
+            elif kind in ("raise", "cut"):
+                cons = sg.env.get("$consumer")
+                sg.env = dict(cons[0]) if cons is not None else dict(cons_env)
+                out.append((kind, val, sg))
+            else:
+                raise AnalysisError(f"generator {callee.qual} ends with {kind}")
+        return out
+
+    def _run_yield(self, fi, stmt, st: _State, depth):
+        out = []
+
+        def act(s, ch):
+            v = self._eval(stmt.value.value, s, fi, depth, ch) if stmt.value.value is not None else NONE
+            return ("yield", v, s)
+
+        for kind, v, s in self._simple(fi, stmt, st, depth, act):
+            if kind != "yield":
+                out.append((kind, v, s))
+                continue
+            cons = s.env.get("$consumer")
+            if cons is None:
+                # the generator analysed on its own: the consumer is not part of this enumeration
+                e = self._event("call", stmt, fi, depth, s)
+                e.ext = "yield"
+                e.args = (v,)
+                out.append(("normal", None, s))
+                continue
+            cons_env, cstmt, cfi, cdepth = cons
+            gen_env = s.env
+            s.env = dict(cons_env)
+            s.env["$iter"] = (cons_env.get("$iter") or ()) + tuple(gen_env.get("$iter") or ()) + ((stmt.lineno, 0),)
+            s.loopdepth += 1
+
+            def bind(sb, ch, v=v):
+                self._assign(cstmt.target, v, sb, cfi, cdepth, ch)
+
+            for k1, v1, s2 in self._simple(cfi, cstmt, s, cdepth, bind):
+                if k1 != "normal":
+                    s2.loopdepth -= 1
+                    out.append(("genexit", (k1, v1), s2))
+                    continue
+                for k2, v2, s3 in self._run_body(cfi, cstmt.body, s2, cdepth):
+                    s3.loopdepth -= 1
+                    if cons_env.get("$iter"):
+                        s3.env["$iter"] = cons_env["$iter"]
+                    else:
+                        s3.env.pop("$iter", None)
+                    if k2 in ("normal", "continue"):
+                        new_cons = s3.env
+                        s3.env = dict(gen_env)
+                        s3.env["$consumer"] = (new_cons, cstmt, cfi, cdepth)
+                        out.append(("normal", None, s3))
+                    else:
+                        out.append(("genexit", (k2, v2), s3))
         return out
 
     def _run_while(self, fi, stmt, st, depth):
